@@ -2,6 +2,7 @@ package main
 
 import (
 	"fmt"
+	"hash/fnv"
 	"go/constant"
 	"go/token"
 	"go/types"
@@ -63,6 +64,8 @@ type WalkConfig struct {
 	Bounds     bool // record slice/index events with state snapshots
 	StopBlock  func(b *ssa.BasicBlock) bool
 	NoHavoc    bool
+	KeepEvent  func(e *Event) bool // nil: keep all; conds are governed by KeepAtom
+	Memo       bool                // merge identical (block, state, kept-trace) configurations
 }
 
 type frame struct {
@@ -83,6 +86,7 @@ type wstate struct {
 	rel    *RelState
 	held   []string
 	trace  []Event
+	thash  uint64
 }
 
 type Walker struct {
@@ -93,6 +97,12 @@ type Walker struct {
 	nframe int
 	loops  map[*ssa.Function]*loopInfo
 	Visits int
+	info   map[*ssa.Function]*fnInfo
+	seen   map[uint64]bool
+	allocs map[string]*ssa.Alloc
+	heap   map[string]bool
+	capt   map[*ssa.Alloc]bool
+	Merged int
 }
 
 func (st *wstate) clone() *wstate {
@@ -101,6 +111,7 @@ func (st *wstate) clone() *wstate {
 		rel:   st.rel.Clone(),
 		held:  append([]string(nil), st.held...),
 		trace: append([]Event(nil), st.trace...),
+		thash: st.thash,
 	}
 	for k, v := range st.store {
 		n.store[k] = v
@@ -125,7 +136,7 @@ func (st *wstate) top() *frame { return st.frames[len(st.frames)-1] }
 
 // Walk enumerates paths of fn.
 func Walk(p *Program, fn *ssa.Function, cfg WalkConfig) *Walker {
-	w := &Walker{P: p, Cfg: cfg, loops: map[*ssa.Function]*loopInfo{}}
+	w := &Walker{P: p, Cfg: cfg, loops: map[*ssa.Function]*loopInfo{}, info: map[*ssa.Function]*fnInfo{}, seen: map[uint64]bool{}, allocs: map[string]*ssa.Alloc{}, heap: map[string]bool{}}
 	if fn == nil || fn.Blocks == nil {
 		w.Err = fmt.Errorf("function has no body")
 		return w
@@ -143,12 +154,16 @@ func Walk(p *Program, fn *ssa.Function, cfg WalkConfig) *Walker {
 		// region starting at a loop header or inner block: its phis are unknown
 		for _, in := range entry.Instrs {
 			if phi, ok := in.(*ssa.Phi); ok {
-				root.env[phi] = "loop:" + phiName(phi)
+				root.env[phi] = loopName(phi)
 			}
 		}
 	}
 	w.block(st, entry, nil)
 	return w
+}
+
+func loopName(phi *ssa.Phi) string {
+	return fmt.Sprintf("loop:%s@%d", phiName(phi), phi.Block().Index)
 }
 
 func phiName(phi *ssa.Phi) string {
@@ -354,15 +369,40 @@ func (w *Walker) canonD(st *wstate, fr *frame, v ssa.Value, d int) string {
 		if fr.id > 0 {
 			s += fmt.Sprintf("~%d", fr.id)
 		}
+		w.allocs[s] = x
+		if x.Heap {
+			w.heap[s] = true
+		}
 		return s
 	case *ssa.Phi:
-		return "phi:" + phiName(x)
+		// a phi not resolved on this path (defined outside the walked region)
+		if d > 6 {
+			return "phi:" + phiName(x)
+		}
+		if sc := w.shortCircuit(st, fr, x, d); sc != "" {
+			return sc
+		}
+		var es []string
+		for _, e := range x.Edges {
+			if e == ssa.Value(x) {
+				continue
+			}
+			es = append(es, w.canonD(st, fr, e, d+3))
+		}
+		sort.Strings(es)
+		return "phi{" + strings.Join(es, " | ") + "}"
 	case *ssa.UnOp:
 		switch x.Op {
 		case token.MUL:
 			addr := w.canonD(st, fr, x.X, d+1)
 			if val, ok := st.store[addr]; ok {
 				return val
+			}
+			// struct assembled field by field in a local (composite literal)
+			if strings.HasPrefix(addr, "&alloc:") {
+				if lit := structLit(st, addr); lit != "" {
+					return lit
+				}
 			}
 			// field of a stored struct value
 			if fa, ok := x.X.(*ssa.FieldAddr); ok {
@@ -397,7 +437,11 @@ func (w *Walker) canonD(st *wstate, fr *frame, v ssa.Value, d int) string {
 	case *ssa.Field:
 		return w.canonD(st, fr, x.X, d+1) + "." + fieldName(x.X.Type(), x.Field)
 	case *ssa.IndexAddr:
-		return "&" + w.canonD(st, fr, x.X, d+1) + "[" + w.canonD(st, fr, x.Index, d+1) + "]"
+		base := w.canonD(st, fr, x.X, d+1)
+		if strings.HasPrefix(base, "&alloc:") {
+			return base + "[" + w.canonD(st, fr, x.Index, d+1) + "]"
+		}
+		return "&" + base + "[" + w.canonD(st, fr, x.Index, d+1) + "]"
 	case *ssa.Index:
 		return w.canonD(st, fr, x.X, d+1) + "[" + w.canonD(st, fr, x.Index, d+1) + "]"
 	case *ssa.Slice:
@@ -407,7 +451,22 @@ func (w *Walker) canonD(st *wstate, fr *frame, v ssa.Value, d int) string {
 			}
 			return w.canonD(st, fr, v, d+1)
 		}
-		return "slice(" + w.canonD(st, fr, x.X, d+1) + "," + part(x.Low) + "," + part(x.High) + "," + part(x.Max) + ")"
+		base := w.canonD(st, fr, x.X, d+1)
+		if strings.HasPrefix(base, "&alloc:") && x.Low == nil && x.High == nil {
+			// variadic argument array assembled element by element
+			var elems []string
+			for i := 0; ; i++ {
+				v, ok := st.store[fmt.Sprintf("%s[const:%d]", base, i)]
+				if !ok {
+					break
+				}
+				elems = append(elems, v)
+			}
+			if len(elems) > 0 {
+				return "[" + strings.Join(elems, ", ") + "]"
+			}
+		}
+		return "slice(" + base + "," + part(x.Low) + "," + part(x.High) + "," + part(x.Max) + ")"
 	case *ssa.Lookup:
 		return "lookup(" + w.canonD(st, fr, x.X, d+1) + "," + w.canonD(st, fr, x.Index, d+1) + ")@" + x.Name()
 	case *ssa.ChangeType:
@@ -452,6 +511,40 @@ func (w *Walker) canonD(st *wstate, fr *frame, v ssa.Value, d int) string {
 	return "?" + v.Name()
 }
 
+// shortCircuit recognises the phi of a && / || expression and renders it as
+// the boolean expression it computes.
+func (w *Walker) shortCircuit(st *wstate, fr *frame, phi *ssa.Phi, d int) string {
+	if len(phi.Edges) != 2 {
+		return ""
+	}
+	b := phi.Block()
+	for i := 0; i < 2; i++ {
+		k, ok := phi.Edges[i].(*ssa.Const)
+		if !ok || k.Value == nil || k.Value.Kind() != constant.Bool {
+			continue
+		}
+		p := b.Preds[i]
+		iff, ok := p.Instrs[len(p.Instrs)-1].(*ssa.If)
+		if !ok {
+			continue
+		}
+		other := w.canonD(st, fr, phi.Edges[1-i], d+2)
+		cond := w.canonD(st, fr, iff.Cond, d+2)
+		kv := constant.BoolVal(k.Value)
+		switch {
+		case !kv && p.Succs[1] == b: // X false -> false ; else rhs
+			return "(" + cond + " && " + other + ")"
+		case kv && p.Succs[0] == b: // X true -> true ; else rhs
+			return "(" + cond + " || " + other + ")"
+		case !kv && p.Succs[0] == b:
+			return "(!" + cond + " && " + other + ")"
+		case kv && p.Succs[1] == b:
+			return "(!" + cond + " || " + other + ")"
+		}
+	}
+	return ""
+}
+
 func fieldName(t types.Type, idx int) string {
 	if p, ok := t.Underlying().(*types.Pointer); ok {
 		t = p.Elem()
@@ -480,8 +573,27 @@ func (w *Walker) argCanon(st *wstate, fr *frame, v ssa.Value, d int) string {
 		if val, ok := st.store[s]; ok {
 			return "&{" + val + "}"
 		}
+		if lit := structLit(st, s); lit != "" {
+			return "&" + lit
+		}
 	}
 	return s
+}
+
+// structLit renders a local struct whose fields were stored one by one.
+func structLit(st *wstate, addr string) string {
+	prefix := addr + "."
+	var fields []string
+	for k, v := range st.store {
+		if strings.HasPrefix(k, prefix) && !strings.ContainsAny(k[len(prefix):], ".[") {
+			fields = append(fields, k[len(prefix):]+": "+v)
+		}
+	}
+	if len(fields) == 0 {
+		return ""
+	}
+	sort.Strings(fields)
+	return "{" + strings.Join(fields, "; ") + "}"
 }
 
 func (w *Walker) callArgs(st *wstate, fr *frame, c *ssa.CallCommon, d int) []string {
@@ -509,7 +621,10 @@ func (w *Walker) callCanon(st *wstate, fr *frame, x *ssa.Call, d int) string {
 	if fr.id > 0 {
 		suffix += fmt.Sprintf("~%d", fr.id)
 	}
-	return s + suffix
+	// impure call results are named by callee and SSA register; the call
+	// event carries the arguments
+	_ = s
+	return name + suffix
 }
 
 // ---------------------------------------------------------------- atoms
@@ -641,7 +756,34 @@ func (w *Walker) emit(st *wstate, e Event) {
 	e.Fn = QualName(fr.fn)
 	e.Depth = len(st.frames) - 1
 	e.Held = append([]string(nil), st.held...)
+	if w.Cfg.KeepEvent != nil && e.Kind != "cond" && !w.Cfg.KeepEvent(&e) {
+		return
+	}
 	st.trace = append(st.trace, e)
+	if w.Cfg.Memo {
+		h := fnv.New64a()
+		var pos [8]byte
+		for i := 0; i < 8; i++ {
+			pos[i] = byte(st.thash >> (8 * i))
+		}
+		h.Write(pos[:])
+		h.Write([]byte(e.Kind))
+		h.Write([]byte(e.Callee))
+		h.Write([]byte(e.Addr))
+		h.Write([]byte(e.Val))
+		h.Write([]byte(e.Res))
+		for _, a := range e.Args {
+			h.Write([]byte(a))
+			h.Write([]byte{0})
+		}
+		if e.Cond != nil {
+			h.Write([]byte(e.Cond.String()))
+		}
+		if e.Instr != nil {
+			fmt.Fprintf(h, "%p", e.Instr)
+		}
+		st.thash = h.Sum64()
+	}
 }
 
 func (w *Walker) finish(st *wstate, end string, rets []string, at ssa.Instruction) {
@@ -704,7 +846,7 @@ func (w *Walker) block(st *wstate, b *ssa.BasicBlock, pred *ssa.BasicBlock) {
 	if isHeader && !w.Cfg.NoHavoc && pred != nil {
 		for _, in := range b.Instrs {
 			if phi, ok := in.(*ssa.Phi); ok {
-				fr.env[phi] = "loop:" + phiName(phi)
+				fr.env[phi] = loopName(phi)
 			}
 		}
 		for lb := range body {
@@ -737,6 +879,14 @@ func (w *Walker) block(st *wstate, b *ssa.BasicBlock, pred *ssa.BasicBlock) {
 				fr.env[phi] = vals[i]
 			}
 		}
+	}
+	if w.Cfg.Memo {
+		k := w.digest(st, b)
+		if w.seen[k] {
+			w.Merged++
+			return
+		}
+		w.seen[k] = true
 	}
 	w.instrs(st, b, 0)
 }
@@ -981,9 +1131,28 @@ func (w *Walker) call(st *wstate, b *ssa.BasicBlock, idx int, in *ssa.Call) bool
 	w.emit(st, Event{Kind: "call", Instr: in, Callee: name, Args: args, Res: res, Inl: inline, Static: fn})
 	if !inline {
 		if !pureCallees[name] && !noHeapEffect[name] && !strings.HasPrefix(name, "builtin:") && !isLogCall(name) {
+			for _, a := range in.Call.Args {
+				ac := w.canon(st, fr, a)
+				if strings.HasPrefix(ac, "&alloc:") {
+					for k := range st.store {
+						if k == ac || strings.HasPrefix(k, ac+".") || strings.HasPrefix(k, ac+"[") {
+							delete(st.store, k)
+						}
+					}
+				}
+			}
 			// unknown callee may modify heap cells: forget non-local cells
 			for k := range st.store {
 				if !strings.HasPrefix(k, "&alloc:") {
+					delete(st.store, k)
+					continue
+				}
+				// locals captured by closures may be written by the callee
+				base := k
+				if i := strings.IndexAny(k[len("&alloc:"):], ".["); i >= 0 {
+					base = k[:len("&alloc:")+i]
+				}
+				if w.heap[base] && w.captured(base) {
 					delete(st.store, k)
 				}
 			}
@@ -1012,6 +1181,49 @@ func (w *Walker) call(st *wstate, b *ssa.BasicBlock, idx int, in *ssa.Call) bool
 	st.frames = append(st.frames, nf)
 	w.block(st, fn.Blocks[0], nil)
 	return true
+}
+
+// captured: is the local bound into a closure (so that a callee can write it)?
+func (w *Walker) captured(base string) bool {
+	a, ok := w.allocs[base]
+	if !ok {
+		return true
+	}
+	if w.capt == nil {
+		w.capt = map[*ssa.Alloc]bool{}
+	}
+	if v, ok := w.capt[a]; ok {
+		return v
+	}
+	res := false
+	var visit func(v ssa.Value, depth int)
+	visit = func(v ssa.Value, depth int) {
+		rs := v.Referrers()
+		if rs == nil || depth > 3 {
+			return
+		}
+		for _, r := range *rs {
+			switch x := r.(type) {
+			case *ssa.MakeClosure:
+				res = true
+			case *ssa.Store:
+				if x.Val == v {
+					res = true // address stored somewhere
+				}
+			case *ssa.FieldAddr:
+				visit(x, depth+1)
+			case *ssa.IndexAddr:
+				visit(x, depth+1)
+			case *ssa.MakeInterface:
+				res = true
+			case *ssa.Phi:
+				res = true
+			}
+		}
+	}
+	visit(a, 0)
+	w.capt[a] = res
+	return res
 }
 
 func isLogCall(name string) bool {
